@@ -1,7 +1,8 @@
 (* C10 -- Shard union, difference and consolidation neither lose nor invent records.  Statements only. *)
 From Coq Require Import NArith Bool List.
 Import ListNotations.
-From XetModel Require Import Base.Codec Gen.ShardLayout Model.Merkle Model.Shard Proofs.SetOpProofs Proofs.SetOpSortedProofs.
+From XetModel Require Import Base.Codec Gen.ShardLayout Model.Merkle Model.Shard Model.Crash Proofs.SetOpProofs Proofs.SetOpSortedProofs.
+From XetModel Require Import Proofs.CodecProofs Proofs.ShardWholeProofs Proofs.ShardDedupWholeProofs Proofs.MergeProofs.
 Open Scope N_scope.
 
 (* keys are the four u64 words the code orders and compares by *)
@@ -46,8 +47,38 @@ Example C10_difference_premises_satisfiable :
   KSorted ci_hash [so_c 1; so_c 2] /\ KSorted ci_hash [so_c 2; so_c 3] /\ diff_cas 4 [so_c 1; so_c 2] [so_c 2; so_c 3] = [so_c 3].
 Proof. exact diff_example. Qed.
 
+
+(* at the level of bytes: the consolidation step (load both shard files with the crate's readers, walk both record lists,
+   serialize the result) applied to two serialized shards -- any keys, times and chunk tables -- is the serialization of their
+   union ... *)
+Theorem C10_merge_of_serialized_shards : forall fa ca ta ka cra exa fb cb tb kb crb exb,
+  ShardOk fa ca ta ka cra exa -> ShardOk fb cb tb kb crb exb ->
+  merge_bytes (w_bs fa ca ta ka cra exa) (w_bs fb cb tb kb crb exb) = Some (disk_union fa fb ca cb).
+Proof. exact merge_of_serialized. Qed.
+(* ... so that, read back with the crate's scans, the merged file makes retrievable exactly the file and xorb keys that were
+   retrievable from one of the inputs: nothing lost (the premise of C19's write-before-delete theorem), nothing invented *)
+Theorem C10_merge_covers_inputs : forall fa ca ta ka cra exa fb cb tb kb crb exb m,
+  ShardOk fa ca ta ka cra exa -> ShardOk fb cb tb kb crb exb ->
+  ShardOk (union_files (length fa + length fb) fa fb) (union_cas (length ca + length cb) ca cb) (d_ctbl (union_cas (length ca + length cb) ca cb)) zero_hash 0 u64max ->
+  merge_bytes (w_bs fa ca ta ka cra exa) (w_bs fb cb tb kb crb exb) = Some m ->
+  forall x, shard_recs (w_bs fa ca ta ka cra exa) x \/ shard_recs (w_bs fb cb tb kb crb exb) x -> shard_recs m x.
+Proof. exact merge_covers_inputs. Qed.
+Theorem C10_merge_invents_nothing : forall fa ca ta ka cra exa fb cb tb kb crb exb m,
+  ShardOk fa ca ta ka cra exa -> ShardOk fb cb tb kb crb exb ->
+  ShardOk (union_files (length fa + length fb) fa fb) (union_cas (length ca + length cb) ca cb) (d_ctbl (union_cas (length ca + length cb) ca cb)) zero_hash 0 u64max ->
+  merge_bytes (w_bs fa ca ta ka cra exa) (w_bs fb cb tb kb crb exb) = Some m ->
+  forall x, shard_recs m x -> shard_recs (w_bs fa ca ta ka cra exa) x \/ shard_recs (w_bs fb cb tb kb crb exb) x.
+Proof. exact merge_invents_nothing. Qed.
+Example C10_merge_example :
+  exists m, merge_bytes (w_bs [wx_f1] [] [] zero_hash 0 u64max) (w_bs [wx_f2] [] [] zero_hash 0 u64max) = Some m
+    /\ shard_recs m (FileKey (fkey wx_f1)) /\ shard_recs m (FileKey (fkey wx_f2)) /\ ~ shard_recs m (FileKey (hwords (repeat 3 32%nat))).
+Proof. exact merge_example. Qed.
+
 Print Assumptions C10_union_file_keys.
 Print Assumptions C10_union_file_records.
 Print Assumptions C10_difference_files_exact.
 Print Assumptions C10_union_sorted.
 Print Assumptions C10_difference_sorted.
+Print Assumptions C10_merge_of_serialized_shards.
+Print Assumptions C10_merge_covers_inputs.
+Print Assumptions C10_merge_invents_nothing.
